@@ -28,11 +28,12 @@ type ChildTpl struct {
 // HookProgram is a pure, serialisable hook: response = f(request JSON).
 type HookProgram struct {
 	Children      []ChildTpl `json:"children"`
-	Ordered       bool       `json:"ordered,omitempty"`      // emit child i only once children 0..i-1 are observed
-	OrderedReady  bool       `json:"orderedReady,omitempty"` // ... and Ready
-	StatusMode    int        `json:"statusMode"`             // 0 null, 1 {}, 2 counts+echo, 3 with own Updated condition, 4 own observedGeneration
-	FinalizeMode  int        `json:"finalizeMode"`           // 0 drop all; 1 keep all; 2 drop last observed per call
-	FinalizedMode int        `json:"finalizedMode"`          // 0 iff no children observed; 1 always; 2 never; 3 iff spec.template.v == v2
+	Ordered       bool       `json:"ordered,omitempty"`       // emit child i only once children 0..i-1 are observed
+	OrderedReady  bool       `json:"orderedReady,omitempty"`  // ... and Ready
+	StatusMode    int        `json:"statusMode"`              // 0 null, 1 {}, 2 counts+echo, 3 with own Updated condition, 4 own observedGeneration
+	FinalizeMode  int        `json:"finalizeMode"`            // 0 drop all; 1 keep all; 2 drop last observed per call
+	SyncFinalized bool       `json:"syncFinalized,omitempty"` // sync answers carry finalized: true as well
+	FinalizedMode int        `json:"finalizedMode"`           // 0 iff no children observed; 1 always; 2 never; 3 iff spec.template.v == v2
 	ResyncAfter   float64    `json:"resyncAfter,omitempty"`
 	// decorator
 	Labels      map[string]*string `json:"labels,omitempty"`
@@ -304,6 +305,9 @@ func (p *HookProgram) eval(sim *vs.Server, parent, observed map[string]any, fina
 			// (anything else is a contradictory answer, outside the input contract)
 			desired = nil
 		}
+	}
+	if !finalizing && p.SyncFinalized {
+		resp["finalized"] = true
 	}
 	if desired == nil {
 		desired = []any{}
